@@ -44,6 +44,8 @@ def main():
             print(c, out[c]["exit"], out[c]["summary"])
     finally:
         subprocess.run(["git", "-C", "/repo", "worktree", "remove", "--force", wt])
+        import hashlib, shutil
+        shutil.rmtree(V / ".work" / ("coq-" + hashlib.sha1(wt.encode()).hexdigest()[:10]), ignore_errors=True)   # the run's private Coq tree
     p = d / "detection.json"
     old = json.loads(p.read_text()) if p.exists() else {}
     old.update(out)
